@@ -4,7 +4,6 @@ import (
 	"fmt"
 	"go/token"
 	"go/types"
-	"strings"
 
 	"argverif/internal/core"
 
@@ -308,7 +307,7 @@ func (c *Ctx) runAccumulators() {
 	for _, f := range p.ArgFuncs() {
 		var apps []*ssa.Call
 		core.Instrs(f, func(in ssa.Instruction) {
-			if cl, ok := in.(*ssa.Call); ok && strings.HasSuffix(core.CalleeName(cl.Common()), "go-multierror.Append") {
+			if cl, ok := in.(*ssa.Call); ok && isErrAccumulator(cl.Common()) {
 				apps = append(apps, cl)
 			}
 		})
@@ -754,4 +753,141 @@ func paramIndex(x *ssa.Parameter) int {
 		}
 	}
 	return -1
+}
+
+// runValueListOrder (VSET): the ordered list of a ValueSet is written only while the set is being constructed.
+// Declaration order is what Values(), Args(), Signature() and the error message report; nothing — a renderer that
+// sorts "for a stable message" included — permutes, overwrites or re-slices the list of a set that already exists.
+func (c *Ctx) runValueListOrder() {
+	p := c.P
+	isList := func(v ssa.Value) bool {
+		for _, sv := range p.ISources(v) {
+			if fr, ok := core.AsFieldLoad(core.Strip(sv)); ok && fr.Owner == "ValueSet" && fr.Field == "values" {
+				return true
+			}
+		}
+		return false
+	}
+	bad := ""
+	n := 0
+	for _, f := range p.ArgFuncs() {
+		for _, w := range enumerateWrites(f) {
+			var tgt ssa.Value
+			switch w.kind {
+			case "sort-in-place", "copy-into":
+				tgt = w.target
+			case "store":
+				if ia, ok := w.target.(*ssa.IndexAddr); ok {
+					tgt = ia.X
+				}
+			}
+			if tgt == nil || !isList(tgt) {
+				continue
+			}
+			n++
+			if p.FreshIn(tgt) {
+				continue
+			}
+			bad = fmt.Sprintf("%s of the ordered value list of an existing set in %s at %s", w.kind, core.FuncName(f), p.InstrPos(w.in))
+		}
+	}
+	c.R.Add("VSET", "values|order-fixed-at-construction", "(package)", "-", bad == "",
+		"the ordered value list of a ValueSet is never permuted, overwritten or copied into after the set was built (declaration order is what introspection and the error message report)",
+		ternary(bad == "", fmt.Sprintf("%d write(s) to such lists, all on sets under construction", n), bad))
+}
+
+// errBoxer: h is a private step `func(err error) reflect.Value` that boxes an error for the final result slot of a
+// generated function exactly as the two spellings it replaces did: reflect.ValueOf(err) for a non-nil error and
+// reflect.Zero(errType) for nil — decided by err itself (err == nil, or ValueOf(err).IsValid()), not by its contents.
+func (c *Ctx) errBoxer(h *ssa.Function) bool {
+	p := c.P
+	if h == nil || !p.PrivateHelper(h) || len(h.Params) != 1 || h.Signature.Results().Len() != 1 {
+		return false
+	}
+	if core.TypeStr(h.Params[0].Type()) != "error" || core.TypeStr(h.Signature.Results().At(0).Type()) != "reflect.Value" {
+		return false
+	}
+	prm := ssa.Value(h.Params[0])
+	isValueOfParam := func(v ssa.Value) bool {
+		cl, ok := core.Strip(v).(*ssa.Call)
+		if !ok || core.CalleeName(cl.Common()) != "reflect.ValueOf" {
+			return false
+		}
+		a := core.Strip(cl.Common().Args[0])
+		if mi, ok := a.(*ssa.MakeInterface); ok {
+			a = core.Strip(mi.X)
+		}
+		if ci, ok := a.(*ssa.ChangeInterface); ok {
+			a = core.Strip(ci.X)
+		}
+		return a == prm
+	}
+	// the literal that decides: nilKnown(lits) = +1 when err is known nil, -1 when known non-nil, 0 otherwise
+	nilKnown := func(lits []core.Lit) int {
+		for _, l := range lits {
+			switch {
+			case l.Kind == "cmp" && l.Op == token.EQL && ((l.X == prm && core.IsNilConst(l.Y)) || (l.Y == prm && core.IsNilConst(l.X))):
+				if l.Pol {
+					return 1
+				}
+				return -1
+			case l.Kind == "call" && l.Callee == core.RVIsValid && len(l.Args) > 0 && isValueOfParam(l.Args[0]):
+				if l.Pol {
+					return -1
+				}
+				return 1
+			}
+		}
+		return 0
+	}
+	nz, nv := 0, 0
+	for _, r := range core.Returns(h) {
+		k := nilKnown(core.Lits(core.Guards(r.Block())))
+		for _, sv := range core.Sources(r.Results[0]) {
+			switch {
+			case isValueOfParam(sv):
+				if k != -1 {
+					return false // the boxed error is returned where err may be nil
+				}
+				nv++
+			default:
+				cl, ok := core.Strip(sv).(*ssa.Call)
+				if !ok || core.CalleeName(cl.Common()) != "reflect.Zero" || !p.IsErrTypeGlobal(cl.Common().Args[0]) {
+					return false
+				}
+				if k != 1 {
+					return false // the nil error is returned where err may be non-nil
+				}
+				nz++
+			}
+		}
+	}
+	return nz > 0 && nv > 0
+}
+
+// boxedErr: v is reflect.ValueOf(e), or the error boxer applied to an error that is not the nil constant; e is returned.
+func (c *Ctx) boxedErr(v ssa.Value) (ssa.Value, bool) {
+	cl, ok := core.Strip(v).(*ssa.Call)
+	if !ok || len(cl.Common().Args) != 1 {
+		return nil, false
+	}
+	if core.CalleeName(cl.Common()) == "reflect.ValueOf" {
+		return cl.Common().Args[0], true
+	}
+	if c.errBoxer(cl.Common().StaticCallee()) && !core.IsNilConst(cl.Common().Args[0]) {
+		return cl.Common().Args[0], true
+	}
+	return nil, false
+}
+
+// zeroErr: v is reflect.Zero(…) or the error boxer applied to the nil constant.
+func (c *Ctx) zeroErr(v ssa.Value) bool {
+	cl, ok := core.Strip(v).(*ssa.Call)
+	if !ok {
+		return false
+	}
+	if core.CalleeName(cl.Common()) == "reflect.Zero" {
+		return true
+	}
+	return len(cl.Common().Args) == 1 && c.errBoxer(cl.Common().StaticCallee()) && core.IsNilConst(cl.Common().Args[0])
 }
